@@ -203,6 +203,15 @@ def make_unit(iset, cube_name, cube_pred, memarch='PMSA', nregions=1, props=('C1
             same.append(('mem', lor(skip, sym.SymBool(mem.term == mem.init))))
             ob = eng.oblige_all('safe.noop', '%s: failed condition leaves everything but PC/ITSTATE unchanged' % tag, same)
             ob.props = ['C05']
+        elif 'fetch-abort' not in events and any(e != 'take_undef_instr_exception' for e in took):
+            # SVC / SMC / Hyp trap / data abort raised by the instruction itself: only when its condition passes
+            # (an UNDEFINED encoding may take its exception whether or not the condition passes: IMPLEMENTATION DEFINED)
+            cond, cu = cur_cond_spec(iset, instr, oplen, cpsr0)
+            passed = P.ConditionHolds(cond, bit(cpsr0, 31), bit(cpsr0, 30), bit(cpsr0, 29), bit(cpsr0, 28))
+            it0 = ST.cpsr_field(cpsr0, 'it')
+            ob = eng.oblige('safe.noop', '%s: an instruction whose condition fails raises no exception (%s)' % (tag, ','.join(took)),
+                            lor(passed, unpred, cu, _is_bkpt(iset, instr), land(bits(it0, 3, 0) != 0, _unpred_in_it_block(iset, instr))))
+            ob.props = ['C05']
         # ---- C19 privilege confinement
         was_user = mode0 == ST.USR
         if took:
@@ -233,7 +242,7 @@ def make_unit(iset, cube_name, cube_pred, memarch='PMSA', nregions=1, props=('C1
             belongs = lor(*[r.match(instr) for r in rows]) if rows else False
             if not eng.prove(sym.zb(belongs)):
                 # words the architecture makes UNPREDICTABLE (under whichever encoding claims them) may decode as anything
-                belongs = lor(belongs, table_unpredictable(iset, instr, oplen, init))
+                belongs = lor(belongs, table_unpredictable(iset, instr, oplen, init, mem.init))
             ob = eng.oblige('decode.class', '%s: the word belongs to the architectural encoding of the selected class' % tag, belongs)
             ob.props = [dprop]
             def fix(name, w, v):
@@ -292,11 +301,10 @@ def make_unit(iset, cube_name, cube_pred, memarch='PMSA', nregions=1, props=('C1
             dprop = 'C06' if iset == 'arm' else 'C07'
             want = 'arm' if iset == 'arm' else ('t16' if iset == 'thumb16' else 't32')
             base = Cpu(dict(init), 'arm' if iset == 'arm' else 'thumb', instr, oplen)
+            base.st['mem'] = mem.init
             claims = []
             for r, mt in live_rows(iset, instr):
-                f = r.extract(instr)
-                unp = lor(r.sbz_violated(instr), r.unpred(f, base) if r.unpred is not None else False)
-                und = r.undef(f, base) if r.undef is not None else False
+                unp, und = row_unpred_undef(r, instr, base)
                 claims.append((r.cls, lnot(land(mt, lnot(unp), lnot(und)))))
             if claims:
                 ob = eng.oblige_all('decode.total', 'undefined: the word is no valid (predictable, defined) encoding of the table', claims)
@@ -313,6 +321,19 @@ def make_unit(iset, cube_name, cube_pred, memarch='PMSA', nregions=1, props=('C1
                 EXC.take_data_abort(st, info['is_align'], info['second'])
                 passed_c, cu_c = PSR.condition_passed('arm' if iset == 'arm' else 'thumb', instr, oplen, init['cpsr'])
                 dual_store = kname.startswith('Strd')
+                if kname.startswith('Ldrd'):
+                    # an instruction that loads more than one register leaves UNKNOWN values in its destination
+                    # registers (other than the PC and the base) when it aborts (B1.9.8)
+                    t1 = bits(instr, 15, 12)
+                    t2 = (t1 + 1) & 15 if iset == 'arm' else bits(instr, 11, 8)
+                    Rf = {k[2:]: v for k, v in final.items() if k.startswith('R.')}
+                    for tt in (t1, t2):
+                        Rs = {k[2:]: v for k, v in st.items() if k.startswith('R.')}
+                        ok = tt <= 14
+                        tts = ite(ok, tt, 0)
+                        new = ST.rset(Rs, tts, mode0, ST.rget(Rf, tts, mode0))
+                        for k, v in new.items():
+                            st['R.' + k] = ite(ok, v, st['R.' + k]) if v is not st['R.' + k] else v
                 named = []
                 for k, v in final.items():
                     if k in SCRATCH:
@@ -329,7 +350,7 @@ def make_unit(iset, cube_name, cube_pred, memarch='PMSA', nregions=1, props=('C1
         return step_replay.replay(iset, memarch, nregions, inputs, ob)
 
     return Unit(uid, list(props), symbolic, replay,
-                {'contracts': {}, 'merge_calls': merge_set(), 'max_paths': 60000},
+                {'contracts': {}, 'merge_calls': merge_set(), 'max_paths': 60000, 'mul_uf': True},
                 meta={'cube': cube_name, 'iset': iset})
 
 
@@ -346,15 +367,33 @@ def live_rows(iset, instr):
         yield r, mt
 
 
-def table_unpredictable(iset, instr, oplen, init):
+def table_unpredictable(iset, instr, oplen, init, mem0):
     """some row of the table matches the word and declares it UNPREDICTABLE (should-be bits, operand restrictions)"""
     from spec.cpu import Cpu
     base = Cpu(dict(init), 'arm' if iset == 'arm' else 'thumb', instr, oplen)
+    base.st['mem'] = mem0
     out = []
     for r, mt in live_rows(iset, instr):
-        f = r.extract(instr)
-        out.append(land(mt, lor(r.sbz_violated(instr), r.unpred(f, base) if r.unpred is not None else False)))
+        out.append(land(mt, row_unpred_undef(r, instr, base)[0]))
     return lor(*out) if out else False
+
+
+def row_unpred_undef(r, instr, base):
+    """(UNPREDICTABLE, UNDEFINED) of the word under row r, whether or not its condition passes: should-be bits, the
+    row's decode-time restrictions, and the restrictions the row's operation states itself (IT-block rules, PC operands)"""
+    f = r.extract(instr)
+    unp = lor(r.sbz_violated(instr), r.unpred(f, base) if r.unpred is not None else False)
+    und = r.undef(f, base) if r.undef is not None else False
+    if r.opfields is None:
+        exe = base.copy()
+        mem0 = exe.st.get('mem')
+        try:
+            r.op(exe, f)
+            unp = lor(unp, exe.unpred)
+            und = lor(und, exe.undef)
+        except NotImplementedError:
+            pass
+    return unp, und
 
 
 def unpred_possible(u):
